@@ -79,14 +79,36 @@ def nth? (l : List Txt) (k : Nat) : Except Err Txt :=
   | some x => .ok x
   | none => .error .IndexError
 
+/-- the order of `tupleList.sort()` on `(index, isInterval)`: by index, then `False < True` -/
+def markLe (a b : Nat × Bool) : Bool :=
+  if a.1 < b.1 then true else if b.1 < a.1 then false else (!a.2 || b.2)
+
+/-- the sorted tier start offsets with their class, closed by `(len(data), True)` -/
+def shortMarks (data : Txt) : List (Nat × Bool) :=
+  let ii := (findAll data (lit "\"IntervalTier\"")).map fun i => (i, true)
+  let pi := (findAll data (lit "\"TextTier\"")).map fun i => (i, false)
+  (ii ++ pi ++ [(data.size, true)]).mergeSort markLe
+
+/-- `tupleList`: (start of the tier block, start of the next one, isInterval) -/
+def shortTuples (data : Txt) : List (Nat × Nat × Bool) :=
+  let all := shortMarks data
+  (all.zip all.tail).map fun p => (p.1.1, p.2.1, p.1.2)
+
+/-- the body of the tier loop of `_parseShortTextgrid` on `tierData = data[blockStartI:blockEndI]` -/
+def readBlock (td : Txt) (isI : Bool) : Except Err RawTier := do
+  let (_, metaI) ← fetchRow td 0
+  let (name, i1) ← fetchTextRow td metaI
+  let (st, i2) ← fetchRow td i1
+  let (en, i3) ← fetchRow td i2
+  let (_, i4) ← fetchRow td i3
+  let entries := shortEntries td isI (td.size + 1) i4 []
+  pure ({ cls := if isI then "IntervalTier" else "TextTier", name := toStr name, xmin := toStr st, xmax := toStr en,
+          entries := entries } : RawTier)
+
 /-- `_parseShortTextgrid(data)` -/
 def parseShort (data0 : Txt) : Except Err RawTg := do
   let data := replace data0 (lit "\r\n") (lit "\n")
-  let ii := (findAll data (lit "\"IntervalTier\"")).map fun i => (i, true)
-  let pi := (findAll data (lit "\"TextTier\"")).map fun i => (i, false)
-  let all := (ii ++ pi ++ [(data.size, true)]).mergeSort fun a b =>
-    if a.1 < b.1 then true else if b.1 < a.1 then false else (!a.2 || b.2)
-  let tuples := (all.zip all.tail).map fun (a, b) => (a.1, b.1, a.2)
+  let tuples := shortTuples data
   match tuples with
   | [] => throw .IndexError                       -- tupleList[0][0]
   | (first, _, _) :: _ =>
@@ -94,16 +116,7 @@ def parseShort (data0 : Txt) : Except Err RawTg := do
     let hl := splitChar header '\n'
     let tgMin ← nth? hl 3
     let tgMax ← nth? hl 4
-    let tiers ← tuples.mapM fun (bs, be, isI) => do
-      let td := slice data bs be
-      let (_, metaI) ← fetchRow td 0
-      let (name, i1) ← fetchTextRow td metaI
-      let (st, i2) ← fetchRow td i1
-      let (en, i3) ← fetchRow td i2
-      let (_, i4) ← fetchRow td i3
-      let entries := shortEntries td isI (td.size + 1) i4 []
-      pure ({ cls := if isI then "IntervalTier" else "TextTier", name := toStr name, xmin := toStr st, xmax := toStr en,
-              entries := entries } : RawTier)
+    let tiers ← tuples.mapM fun t => readBlock (slice data t.1 t.2.1) t.2.2
     pure ⟨toStr (strip tgMin), toStr (strip tgMax), tiers⟩
 
 /-! ## matchers standing in for the regular expressions of `_parseNormalTextgrid` -/
